@@ -10,7 +10,7 @@ mkdir -p "$OUT/gen" "$OUT/eng" "$OUT/sim"
 
 COMMON_DEFS="-DNDEBUG -DLOG_LEVEL=0 -DCHESSPLUSPLUS_VERIF -DCHESSPLUSPLUS_VERIF_TT_SIZE=${VERIF_TT_SIZE:-65536} -DCHESSPLUSPLUS_VERIF_PAWN_SIZE=${VERIF_PAWN_SIZE:-1024}"
 INC="-I$REPO/engine -I$OUT/gen -I$VERIF/sim"
-WRAP="-Wl,--wrap=_ZNSt6chrono3_V212steady_clock3nowEv -Wl,--wrap=_ZNSt6chrono3_V212system_clock3nowEv"
+WRAP="-Wl,--wrap=_ZNSt6chrono3_V212steady_clock3nowEv -Wl,--wrap=_ZNSt6chrono3_V212system_clock3nowEv -Wl,--wrap=_ZNSt13random_device9_M_getvalEv"
 case "$VARIANT" in
   plain)
     CXX=g++
@@ -22,7 +22,7 @@ case "$VARIANT" in
     # for valgrind: no -march=native (memcheck does not know every host instruction)
     CXX=g++
     ENG_FLAGS="-std=c++20 -O1 -g $COMMON_DEFS"
-    SIM_FLAGS="-std=c++20 -O1 -g -fno-access-control $COMMON_DEFS -DVERIF_VARIANT_NAME=vg"
+    SIM_FLAGS="-std=c++20 -O1 -g -fno-access-control $COMMON_DEFS -DVERIF_VG -DVERIF_VARIANT_NAME=vg"
     LD_FLAGS="$WRAP -pthread -ldl"
     ;;
   asan)
